@@ -12,6 +12,15 @@ from .typing import Protocol, runtime_checkable
 Source = str
 Nodes = list["Node"]
 
+# RFC 5234 char-vals are case-insensitive over US-ASCII letters only, so we fold
+# A-Z to a-z and leave every other character alone (str.casefold would also fold
+# e.g. U+212A KELVIN SIGN to "k").
+_ASCII_FOLD = {c: c + 0x20 for c in range(0x41, 0x5B)}
+
+
+def ascii_fold(value: str) -> str:
+    return value.translate(_ASCII_FOLD)
+
 
 class Match:
     def __init__(self, nodes: Nodes, start: int):
@@ -316,7 +325,7 @@ class Literal:
         self.value = value
         self.case_sensitive = case_sensitive
         self.pattern = (
-            value if isinstance(value, tuple) or case_sensitive else value.casefold()
+            value if isinstance(value, tuple) or case_sensitive else ascii_fold(value)
         )
 
         self.lparse = (
@@ -341,7 +350,7 @@ class Literal:
         # is handled correctly.
         if start < len(source):
             src = source[start : start + len(self.value)]
-            match = src if self.case_sensitive else src.casefold()
+            match = src if self.case_sensitive else ascii_fold(src)
             if match == self.pattern:
                 yield Match(
                     [typing.cast(Node, LiteralNode(src, start, len(src)))],
